@@ -336,3 +336,45 @@ def enumerate_paths(cfg: CFG, start=None, max_paths=20000, loop_visits=2):
             c2[m.id] = c + 1
             stack.append((m, path + [m], c2))
     return out
+
+
+def postdominators(cfg: CFG):
+    """dict node.id -> set of ids that post-dominate it (virtual exit joins exit and raise)."""
+    VX = -1
+    ids = [n.id for n in cfg.nodes]
+    succ = {n.id: [m.id for m, _ in n.succ] for n in cfg.nodes}
+    succ[cfg.exit.id] = [VX]
+    succ[cfg.raise_exit.id] = [VX]
+    allids = set(ids) | {VX}
+    pdom = {i: set(allids) for i in ids}
+    pdom[VX] = {VX}
+    changed = True
+    while changed:
+        changed = False
+        for i in reversed(ids):
+            ss = succ[i]
+            if ss:
+                new = set.intersection(*(pdom[s] for s in ss)) | {i}
+            else:
+                new = {i}  # dead end (unreachable continuation)
+            if new != pdom[i]:
+                pdom[i] = new
+                changed = True
+    return pdom
+
+
+def control_deps(cfg: CFG):
+    """dict node.id -> set of (test node id, label) it is control dependent on (Ferrante et al.)."""
+    pd = getattr(cfg, "_pdom", None)
+    if pd is None:
+        pd = cfg._pdom = postdominators(cfg)
+    out = {n.id: set() for n in cfg.nodes}
+    for t in cfg.nodes:
+        if len(t.succ) < 2:
+            continue
+        for s, lab in t.succ:
+            # nodes that postdominate s (incl. s) but do not postdominate t
+            for nid in pd[s.id]:
+                if nid >= 0 and nid != t.id and nid not in (pd[t.id] - {t.id}):
+                    out[nid].add((t.id, lab))
+    return out
